@@ -244,4 +244,9 @@ def normalise(raw_text):
     if cren:
         j = json.loads(apply_renames(json.dumps(j), cren))
         allren.update(cren)
+    # (5) named booleans: keep the paths that decided a bool local apart up to the branch on it
+    from .inline import split_bool_merges
+    for bj in j["bodies"]:
+        if bj["kind"] in KINDS or bj["kind"] == "closure":
+            split_bool_merges(bj)
     return j, allren, inl
